@@ -458,6 +458,12 @@ func (g *vGen) next(step int, st map[string]interface{}) *vEntry {
 				}
 				e.Sup = false
 				e.Data = fmt.Sprintf(":%s SVSNICK %s %s %d", pfx, target, nn, g.ts)
+			} else if len(nicks) > 0 && r.Intn(3) == 0 {
+				// a nickname that is indexed: another spelling of the target's own one, or somebody else's
+				e.Data = fmt.Sprintf(":%s SVSNICK %s %s %d", pfx, target, variant(r, nicks[r.Intn(len(nicks))]), g.ts)
+			} else if len(cs) > 0 && r.Intn(4) == 0 {
+				own := cs[r.Intn(len(cs))]
+				e.Data = fmt.Sprintf(":%s SVSNICK %s %s %d", pfx, own, variant(r, own), g.ts)
 			} else if free {
 				e.Data = fmt.Sprintf(":%s SVSNICK %s %s %d", pfx, target, nn, g.ts)
 			} else {
